@@ -2,6 +2,7 @@ package types
 
 import (
 	"github.com/basecomplextech/spec/internal/decode"
+	"github.com/basecomplextech/spec/internal/format"
 	"github.com/basecomplextech/spec/internal/zzverif"
 )
 
@@ -27,4 +28,198 @@ func ZZ_C13_ProbeAgrees() {
 	zzverif.Assert(err3 == nil, "reparse-accepts")
 	zzverif.Assert(n3 == n && len(v2) == n, "reparse-size")
 	zzverif.Observe("n", n)
+
+	// the accepted value can be read again through the typed accessor of its own type
+	var rerr error
+	switch v.Type() {
+	case format.TypeTrue, format.TypeFalse:
+		_, rerr = v.BoolErr()
+	case format.TypeByte:
+		_, rerr = v.ByteErr()
+	case format.TypeInt16:
+		_, rerr = v.Int16Err()
+	case format.TypeInt32:
+		_, rerr = v.Int32Err()
+	case format.TypeInt64:
+		_, rerr = v.Int64Err()
+	case format.TypeUint16:
+		_, rerr = v.Uint16Err()
+	case format.TypeUint32:
+		_, rerr = v.Uint32Err()
+	case format.TypeUint64:
+		_, rerr = v.Uint64Err()
+	case format.TypeFloat32:
+		_, rerr = v.Float32Err()
+	case format.TypeFloat64:
+		_, rerr = v.Float64Err()
+	case format.TypeBin64:
+		_, rerr = v.Bin64Err()
+	case format.TypeBin128:
+		_, rerr = v.Bin128Err()
+	case format.TypeBin256:
+		_, rerr = v.Bin256Err()
+	case format.TypeBytes:
+		_, rerr = v.BytesErr()
+	case format.TypeString:
+		_, rerr = v.StringErr()
+	case format.TypeList, format.TypeBigList:
+		_, rerr = v.ListErr()
+	case format.TypeMessage, format.TypeBigMessage:
+		_, rerr = v.MessageErr()
+	case format.TypeStruct:
+		_, _, rerr = decode.DecodeStruct(v)
+	}
+	zzverif.Assert(rerr == nil, "typed-reread")
+}
+
+// ZZ_C13_Reread: every nested field and element the parser visited can be read again without error.
+func ZZ_C13_Reread() {
+	b := zzverif.Bytes(zzverif.Param("L"))
+	switch zzverif.Param("K") {
+	case 0:
+		m, _, err := ParseMessage(b)
+		zzverif.Assume(err == nil)
+		num := m.Fields()
+		i := zzverif.Int()
+		zzverif.Assume(i >= 0 && i < num)
+		zzverif.Reach("field")
+		raw := m.fieldAt(i)
+		if len(raw) != 0 {
+			_, _, err := ParseValue(raw)
+			zzverif.Assert(err == nil, "field-reparse")
+			v := m.FieldAt(i)
+			zzverif.Assert(len(v) != 0, "fieldat-open")
+			_, n2, err2 := decode.DecodeTypeSize(raw)
+			zzverif.Assert(err2 == nil && n2 == len(v), "field-probe")
+		}
+	case 1:
+		l, _, err := ParseList(b)
+		zzverif.Assume(err == nil)
+		num := l.Len()
+		i := zzverif.Int()
+		zzverif.Assume(i >= 0 && i < num)
+		zzverif.Reach("field")
+		raw := l.GetBytes(i)
+		if len(raw) != 0 {
+			_, _, err := ParseValue(raw)
+			zzverif.Assert(err == nil, "elem-reparse")
+			v := l.Get(i)
+			_, n2, err2 := decode.DecodeTypeSize(v)
+			zzverif.Assert(err2 == nil && n2 <= len(v), "elem-probe")
+		}
+	}
+}
+
+func zzPrefixed(v []byte) []byte {
+	p := zzverif.Bytes(zzverif.Param("P"))
+	pb := make([]byte, len(p)+len(v))
+	copy(pb, p)
+	copy(pb[len(p):], v)
+	return pb
+}
+
+// ZZ_C13_LocalParse: ParseValue of an accepted value behind an arbitrary prefix gives the same result.
+func ZZ_C13_LocalParse() {
+	b := zzverif.Bytes(zzverif.Param("L"))
+	v, n, err := ParseValue(b)
+	zzverif.Assume(err == nil && n > 0)
+	pb := zzPrefixed(v)
+	zzverif.Reach("prefixed")
+	v2, n2, err2 := ParseValue(pb)
+	zzverif.Assert(err2 == nil, "prefixed-accepts")
+	zzverif.Assert(n2 == n, "prefixed-size")
+	zzverif.Assert(len(v2) == len(v), "prefixed-len")
+	t, n3, err3 := decode.DecodeTypeSize(pb)
+	zzverif.Assert(err3 == nil && n3 == n && t == v.Type(), "prefixed-probe")
+}
+
+// ZZ_C13_LocalDecode: every typed decoder returns the same value, size and error-ness for a value
+// standing alone and for the same n bytes behind an arbitrary prefix. The value is delimited by
+// the size probe (so wrongly typed reads, which must fail identically, are included).
+func ZZ_C13_LocalDecode() {
+	b := zzverif.Bytes(zzverif.Param("L"))
+	_, n, err := decode.DecodeTypeSize(b)
+	zzverif.Assume(err == nil && n > 0 && n <= len(b))
+	v := b[len(b)-n:]
+	pb := zzPrefixed(v)
+	zzverif.Reach("prefixed")
+	switch zzverif.Param("F") {
+	case 0:
+		x, n1, e1 := decode.DecodeBool(v)
+		y, n2, e2 := decode.DecodeBool(pb)
+		zzverif.Assert((e1 == nil) == (e2 == nil), "bool-err")
+		zzverif.Assert(e1 != nil || (x == y && n1 == n2), "bool-val")
+		x1, n1, e1 := decode.DecodeByte(v)
+		y1, n2, e2 := decode.DecodeByte(pb)
+		zzverif.Assert((e1 == nil) == (e2 == nil), "byte-err")
+		zzverif.Assert(e1 != nil || (x1 == y1 && n1 == n2), "byte-val")
+	case 1:
+		x, n1, e1 := decode.DecodeInt16(v)
+		y, n2, e2 := decode.DecodeInt16(pb)
+		zzverif.Assert((e1 == nil) == (e2 == nil), "int16-err")
+		zzverif.Assert(e1 != nil || (x == y && n1 == n2), "int16-val")
+		x1, n1, e1 := decode.DecodeInt32(v)
+		y1, n2, e2 := decode.DecodeInt32(pb)
+		zzverif.Assert((e1 == nil) == (e2 == nil), "int32-err")
+		zzverif.Assert(e1 != nil || (x1 == y1 && n1 == n2), "int32-val")
+		x2, n1, e1 := decode.DecodeInt64(v)
+		y2, n2, e2 := decode.DecodeInt64(pb)
+		zzverif.Assert((e1 == nil) == (e2 == nil), "int64-err")
+		zzverif.Assert(e1 != nil || (x2 == y2 && n1 == n2), "int64-val")
+	case 2:
+		x, n1, e1 := decode.DecodeUint16(v)
+		y, n2, e2 := decode.DecodeUint16(pb)
+		zzverif.Assert((e1 == nil) == (e2 == nil), "uint16-err")
+		zzverif.Assert(e1 != nil || (x == y && n1 == n2), "uint16-val")
+		x1, n1, e1 := decode.DecodeUint32(v)
+		y1, n2, e2 := decode.DecodeUint32(pb)
+		zzverif.Assert((e1 == nil) == (e2 == nil), "uint32-err")
+		zzverif.Assert(e1 != nil || (x1 == y1 && n1 == n2), "uint32-val")
+		x2, n1, e1 := decode.DecodeUint64(v)
+		y2, n2, e2 := decode.DecodeUint64(pb)
+		zzverif.Assert((e1 == nil) == (e2 == nil), "uint64-err")
+		zzverif.Assert(e1 != nil || (x2 == y2 && n1 == n2), "uint64-val")
+	case 3:
+		x, n1, e1 := decode.DecodeFloat32(v)
+		y, n2, e2 := decode.DecodeFloat32(pb)
+		zzverif.Assert((e1 == nil) == (e2 == nil), "float32-err")
+		zzverif.Assert(e1 != nil || ((x == y || (x != x && y != y)) && n1 == n2), "float32-val")
+		x1, n1, e1 := decode.DecodeFloat64(v)
+		y1, n2, e2 := decode.DecodeFloat64(pb)
+		zzverif.Assert((e1 == nil) == (e2 == nil), "float64-err")
+		zzverif.Assert(e1 != nil || ((x1 == y1 || (x1 != x1 && y1 != y1)) && n1 == n2), "float64-val")
+	case 4:
+		x, n1, e1 := decode.DecodeBin64(v)
+		y, n2, e2 := decode.DecodeBin64(pb)
+		zzverif.Assert((e1 == nil) == (e2 == nil), "bin64-err")
+		zzverif.Assert(e1 != nil || (x == y && n1 == n2), "bin64-val")
+		x1, n1, e1 := decode.DecodeBin128(v)
+		y1, n2, e2 := decode.DecodeBin128(pb)
+		zzverif.Assert((e1 == nil) == (e2 == nil), "bin128-err")
+		zzverif.Assert(e1 != nil || (x1 == y1 && n1 == n2), "bin128-val")
+	case 5:
+		x, n1, e1 := decode.DecodeBytes(v)
+		y, n2, e2 := decode.DecodeBytes(pb)
+		zzverif.Assert((e1 == nil) == (e2 == nil), "bytes-err")
+		zzverif.Assert(e1 != nil || (string(x) == string(y) && n1 == n2), "bytes-val")
+		x1, n1, e1 := decode.DecodeString(v)
+		y1, n2, e2 := decode.DecodeString(pb)
+		zzverif.Assert((e1 == nil) == (e2 == nil), "string-err")
+		zzverif.Assert(e1 != nil || (x1 == y1 && n1 == n2), "string-val")
+	case 6:
+		x, n1, e1 := decode.DecodeStruct(v)
+		y, n2, e2 := decode.DecodeStruct(pb)
+		zzverif.Assert((e1 == nil) == (e2 == nil), "struct-err")
+		zzverif.Assert(e1 != nil || (x == y && n1 == n2), "struct-val")
+	case 7:
+		x, n1, e1 := decode.DecodeListTable(v)
+		y, n2, e2 := decode.DecodeListTable(pb)
+		zzverif.Assert((e1 == nil) == (e2 == nil), "list-err")
+		zzverif.Assert(e1 != nil || (x.Len() == y.Len() && x.DataSize() == y.DataSize() && n1 == n2), "list-val")
+	case 8:
+		x, n1, e1 := decode.DecodeMessageTable(v)
+		y, n2, e2 := decode.DecodeMessageTable(pb)
+		zzverif.Assert((e1 == nil) == (e2 == nil), "msg-err")
+		zzverif.Assert(e1 != nil || (x.Len() == y.Len() && x.DataSize() == y.DataSize() && n1 == n2), "msg-val")
+	}
 }
